@@ -179,6 +179,44 @@ def _alarm(signum, frame):
     raise _Hang()
 
 
+def check_configured_limits(out, stats):
+    """The per-payload limit is a configuration value (Payload.max_decode_packets): whatever it is set to, bodies of up
+    to that many packets decode to exactly those packets and longer ones are refused as a whole."""
+    packet, payload = _mods()
+    saved = payload.Payload.max_decode_packets
+    try:
+        for lim in (1, 2, 3, 15, 17, 18, 20, 33, 40):
+            payload.Payload.max_decode_packets = lim
+            for n in sorted({0, 1, lim - 1, lim, lim + 1, lim + 2, 2 * lim + 3, 100}):
+                if n < 0:
+                    continue
+                pkts = [(4, 'm%d' % i) for i in range(n)]
+                ref = codec.ref_payload_encode(pkts)
+                for vname, body in (('plain', ref), ('quote', 'd=' + urllib.parse.quote(ref, safe=''))):
+                    if n == 0 and vname != 'plain':
+                        continue
+                    case = {'limit': lim, 'n': n, 'variant': vname}
+                    stats['cases'] += 1
+                    stats['nontrivial'] += 1
+                    try:
+                        p = payload.Payload(encoded_payload=body)
+                        got = [(q.packet_type, q.data) for q in p.packets]
+                    except Exception as e:
+                        got = None
+                        err = e
+                    if n > lim and got is not None:
+                        out.append(_viol('over_limit_accepted', 'limit=%d' % lim, 'limit configured to %d: a body of %d packets was accepted as %d packets (last %r)'
+                                         % (lim, n, len(got), got[-1:]), {'harness': 'limits', **case}, (0, n)))
+                    elif n <= lim and got is None:
+                        out.append(_viol('decode_refused_valid', 'limit=%d' % lim, 'limit configured to %d: a body of %d packets was refused: %r' % (lim, n, err),
+                                         {'harness': 'limits', **case}, (0, n)))
+                    elif n <= lim and got != pkts:
+                        out.append(_viol('order_or_content', 'limit=%d' % lim, 'limit configured to %d: %d packets decoded to %r' % (lim, n, got[-2:]),
+                                         {'harness': 'limits', **case}, (0, n)))
+    finally:
+        payload.Payload.max_decode_packets = saved
+
+
 def _work(chunk):
     kind, items = chunk
     out = []
@@ -194,6 +232,8 @@ def _work(chunk):
                 check_list(pk, out, stats)
                 stats['cases'] += 1
                 stats['nontrivial'] += 1 if pk else 0
+        elif kind == 'limits':
+            check_configured_limits(out, stats)
         elif kind == 'strings':
             for prefix, n in items:
                 for t in itertools.product(ALPHA, repeat=n):
@@ -253,6 +293,7 @@ def run(ctx):
         slice_items = [(pa + b + c, full - 2) for b in ALPHA for c in ALPHA]
         slice_desc = 'all strings of length %d starting with %r' % (full + 1, pa)
     # long bodies around the limit built from single-symbol packets
+    chunks += [('limits', [])]
     chunks += [('strings', c) for c in parallel.split(items + slice_items, ctx.workers * 6)]
     res = parallel.pmap_chunks(_work, chunks, ctx.workers, ctx.seed)
     tot = {}
@@ -283,7 +324,7 @@ def run(ctx):
         'rule': 'encoder: every packet list of length <= %d over 8 representative packets, cyclic '
                 'families of every length 0..18 over 16 packets, uniform lists up to 100 (lists of <= 4 packets holding binary data also from packet objects already encoded for other channels, 6 encode histories), each also as '
                 'd=quote and d=quote_plus form bodies; decoder: every string of length <= %d over the '
-                '14-symbol alphabet %r plus the complete slice {%s}; plus separator/limit probes 0..19 and '
+                '14-symbol alphabet %r plus the complete slice {%s}; plus separator/limit probes 0..19, bodies around the limit for 9 other configured values of Payload.max_decode_packets (1..40) and '
                 'bodies of 1000/100000 segments or brackets. Non-trivial = more than one symbol / non-empty list.'
                 % (3 if ctx.quick else 4, full, ''.join(ALPHA), slice_desc),
         'samples': ['4hello\x1e4\x1e4{"a":[1,"x"]}\x1ebAAH/', 'd=4%1E4', '9\x1eb!', '4\x1e' * 16 + '4'],
@@ -303,9 +344,11 @@ def run(ctx):
 def replay(ctx, payload):
     r = report.unbytes(payload['replay'])
     out = []
-    st = {'encodes': 0, 'decodes': 0, 'decode_errors': 0, 'form': 0}
+    st = {'encodes': 0, 'decodes': 0, 'decode_errors': 0, 'form': 0, 'cases': 0, 'nontrivial': 0}
     if r['harness'] == 'list':
         check_list([(t, d) for t, d in r['packets']], out, st)
+    elif r['harness'] == 'limits':
+        check_configured_limits(out, st)
     else:
         check_string(r['s'], out, st, {})
     for v in out:
